@@ -21,7 +21,11 @@ def one(i_s):
     i, s = i_s
     src = open('/repo/' + s['file']).read()
     if src.count(s['find']) != 1: return s['id'], 'skipped', []
-    mf = f'{tmp}/s{i}.go'; open(mf, 'w').write(src.replace(s['find'], s['replace'], 1) + s.get('append', ''))
+    mut = src.replace(s['find'], s['replace'], 1)
+    for ed in s.get('edits', []):
+        if mut.count(ed['find']) != 1: return s['id'], 'skipped', []
+        mut = mut.replace(ed['find'], ed['replace'], 1)
+    mf = f'{tmp}/s{i}.go'; open(mf, 'w').write(mut + s.get('append', ''))
     res = lint(f"{s['file']}={mf}", f's{i}')
     if res is None: return s['id'], 'invalid', []
     new = [(k, v.get('detail', '')[:160]) for k, v in res.items() if v['verdict'] != 'discharged' and k not in basefail]
